@@ -15,6 +15,7 @@ import (
 	"sort"
 	"strconv"
 	"sync"
+	"syscall"
 
 	"verif/engine/ev"
 )
@@ -64,8 +65,10 @@ func main() {
 		wg.Add(1)
 		go func(i int) {
 			defer wg.Done()
+			runtime.LockOSThread() // Pdeathsig is tied to the creating thread
 			cmd := exec.Command(exe, "shard", id, tier, strconv.Itoa(i), strconv.Itoa(n))
 			cmd.Stderr = os.Stderr
+			cmd.SysProcAttr = &syscall.SysProcAttr{Pdeathsig: syscall.SIGKILL}
 			out, err := cmd.StdoutPipe()
 			if err != nil {
 				panic(err)
